@@ -1,3 +1,4 @@
+import RsyncModel.Gen.ConnUse
 import RsyncModel.PureTie
 import RsyncModel.MuxThm
 /-! # C17 — multiplex framing is transparent
@@ -62,5 +63,17 @@ theorem source_header (tag : UInt8) (p bs : Bytes) (t0 : UInt8) :
     Gen.Pure.muxHeader tag p = header tag p.length ∧
     Gen.Pure.muxDecode (hdrOf bs) t0 = (tagOf bs, hdrOf bs &&& 0x00FFFFFF) :=
   ⟨PureTie.muxHeader_tied tag p, PureTie.muxDecode_tied bs t0⟩
+
+
+/-- **Regenerated fact**: every read of the wire layer (`rsyncwire.Conn`, the counting reader, the
+demultiplexer) goes through `io.ReadFull` / `binary.Read` / the underlying `Read`. None goes through a
+buffered reader's byte-wise path (`ReadByte`, `Peek`, `ReadString`), which gives up with
+`io.ErrNoProgress` after 100 reads that return no data — exactly what a run of info frames or empty
+data frames makes the demultiplexer's `Read` do. `client_reads_data_only` (any number of such frames
+anywhere) rests on this. -/
+theorem wire_reads_through_readfull :
+    Gen.ConnUse.wireReads = ["CountingReader.Read: r.R.Read", "Conn.ReadByte: io.ReadFull", "Conn.ReadInt32: io.ReadFull",
+      "Conn.ReadInt64: c.ReadInt32", "Conn.ReadInt64: binary.Read", "MultiplexReader.ReadMsg: binary.Read",
+      "MultiplexReader.ReadMsg: io.ReadFull"] := by decide
 
 end C17
